@@ -121,6 +121,7 @@ Definition out_ok (o : out T) (so : sout T) : Prop :=
   | RInt _ z, SInt _ z' => z = z'
   | RElem _ x, SElem _ x' => x = x'
   | RSlice _ s, SList _ pre A => exists l, sl_elems T s = pre ++ l /\ Permutation l A
+  | RPanicNilFunc _, SPanicNilFunc _ => True       (* Range of the nil function: both say it panics *)
   | _, _ => False
   end.
 
@@ -158,50 +159,50 @@ Proof.
   intros. cbn [assign sassign fst snd]. split; [apply R_upd; assumption | assumption].
 Qed.
 
-Definition good_step (st : store T) (sst : sstore T) (o : op T) : Prop :=
-  snd (step T eqb zero st o) = RBadOrder T \/
-  (R (fst (step T eqb zero st o)) (fst (sstep T eqb zero sst o)) /\
-   out_ok (snd (step T eqb zero st o)) (snd (sstep T eqb zero sst o))).
+Definition good_step (st : store T) (next : positive) (sst : sstore T) (o : op T) : Prop :=
+  snd (step T eqb zero st next o) = RBadOrder T \/
+  (R (fst (step T eqb zero st next o)) (fst (sstep T eqb zero sst o)) /\
+   out_ok (snd (step T eqb zero st next o)) (snd (sstep T eqb zero sst o))).
 
 (* a set constructed from a list of items *)
-Lemma rel_of_items : forall l items, NoDup l -> (forall y, In y l <-> In y items) -> rel (Some l) (s_adds T eqb [] items).
+Lemma rel_of_items : forall p l items, NoDup l -> (forall y, In y l <-> In y items) -> rel (Some (p, l)) (s_adds T eqb [] items).
 Proof.
-  intros l items N M. destruct (s_adds_In items []) as [M1 N1].
+  intros p l items N M. destruct (s_adds_In items []) as [M1 N1].
   split; [exact N|]. split; [apply N1; constructor|]. intro y. cbn [MapsetModel.m_keys]. rewrite M, M1. cbn [In]. tauto.
 Qed.
 
-Theorem step_refines : forall st sst o, R st sst -> good_step st sst o.
+Theorem step_refines : forall st next sst o, R st sst -> good_step st next sst o.
 Proof.
-  intros st sst o HR. unfold good_step.
-  destruct o as [i items|i n|i|i items|i j ord|i items|i j ord|i ord|i|i j|i js ord|i items|i keys|i vals
+  intros st next sst o HR. unfold good_step.
+  destruct o as [i items|i n|i|i items|i j ord|i items|i j ord|i ord|i|i j|i js ord|i [items|]|i keys|i vals
                 |i x|i ts|i ts|i|i|i j ord|i j ord|i j ord|i ord|i vs ord]; cbn [step sstep].
-  - (* New *) right. destruct (New_spec T eqb eqb_spec items) as [l [E [N M]]]. rewrite E.
+  - (* New *) right. destruct (New_spec T eqb eqb_spec next items) as [l [E [N M]]]. rewrite E.
     apply assign_ok; [exact HR | apply rel_of_items; assumption].
-  - (* NewSize *) right. apply assign_ok; [exact HR|]. split; [constructor|]. split; [constructor|]. intro x. cbn. tauto.
+  - (* NewSize *) right. rewrite NewSize_spec. apply assign_ok; [exact HR|]. split; [constructor|]. split; [constructor|]. intro x. cbn. tauto.
   - (* nil *) right. apply assign_ok; [exact HR|]. split; [constructor|]. split; [constructor|]. intro x. cbn. tauto.
   - (* Add *) right. destruct (HR i) as [W [WA MA]].
-    destruct (Add_spec T eqb eqb_spec (st i) items W) as [l [E [N M]]]. rewrite E.
+    destruct (Add_spec T eqb eqb_spec (st i) next items W) as [l [E [N M]]]. rewrite E.
     apply assign_ok; [exact HR|]. destruct (s_adds_In items (sst i)) as [M1 N1].
     split; [exact N|]. split; [apply N1; exact WA|]. intro y. cbn [MapsetModel.m_keys]. rewrite M, M1. unfold MapsetProofs.has. rewrite MA. tauto.
   - (* AddAll *) destruct (HR i) as [W [WA MA]]. destruct (HR j) as [Wj [WAj MAj]].
-    pose proof (AddAll_spec T eqb eqb_spec (st i) (st j) ord W Wj) as H.
-    destruct (AddAll T eqb (st i) (st j) ord) as [r| | |]; try contradiction; [|left; reflexivity].
+    pose proof (AddAll_spec T eqb eqb_spec (st i) (st j) next ord W Wj) as H.
+    destruct (AddAll T eqb (st i) (st j) next ord) as [r| | | | |]; try contradiction; [|left; reflexivity].
     right. destruct H as [l [E [N M]]]. subst r. apply assign_ok; [exact HR|].
     destruct (s_adds_In (sst j) (sst i)) as [M1 N1].
     split; [exact N|]. split; [apply N1; exact WA|]. intro y. cbn [MapsetModel.m_keys]. rewrite M, M1. unfold MapsetProofs.has. rewrite MA, MAj. tauto.
   - (* Remove *) right. destruct (HR i) as [W [WA MA]].
-    destruct (Remove_spec T eqb eqb_spec (st i) items) as [M [W1 _]].
+    destruct (Remove_spec T eqb eqb_spec (st i) items) as [r [E [M [W1 _]]]]. rewrite E.
     apply assign_ok; [exact HR|]. destruct (s_dels_In items (sst i)) as [M1 N1].
     split; [apply W1; exact W|]. split; [apply N1; exact WA|]. intro y. rewrite M1, <- MA. apply M.
   - (* RemoveAll *) destruct (HR i) as [W [WA MA]]. destruct (HR j) as [Wj [WAj MAj]].
-    pose proof (RemoveAll_spec T eqb eqb_spec (st i) (st j) ord Wj) as H.
-    destruct (RemoveAll T eqb (st i) (st j) ord) as [r| | |]; try contradiction; [|left; reflexivity].
+    pose proof (RemoveAll_spec T eqb eqb_spec (st i) (st j) ord W Wj) as H.
+    destruct (RemoveAll T eqb (st i) (st j) ord) as [r| | | | |]; try contradiction; [|left; reflexivity].
     right. destruct H as [M [W1 _]]. apply assign_ok; [exact HR|].
     destruct (s_dels_In (sst j) (sst i)) as [M1 N1].
-    split; [apply W1; exact W|]. split; [apply N1; exact WA|]. intro y. rewrite M1, <- MA, <- MAj. apply M.
+    split; [exact W1|]. split; [apply N1; exact WA|]. intro y. rewrite M1, <- MA, <- MAj. apply M.
   - (* Pop *) pose proof (HR i) as Hrel. destruct Hrel as [W [WA MA]].
     pose proof (Pop_spec T eqb zero eqb_spec (st i) ord W) as H.
-    destruct (Pop T eqb zero (st i) ord) as [[s' x]| | |]; try contradiction; [|left; reflexivity].
+    destruct (Pop T eqb zero (st i) ord) as [[s' x]| | | | |]; try contradiction; [|left; reflexivity].
     right. destruct H as [[[E [Es [Ex Eo]]]|[Hx [M [L [r Eo]]]]] [W' _]].
     + apply (rel_nil _ _ (HR i)) in E. rewrite E. cbn [fst snd]. subst s' x. split; [|reflexivity].
       intro k. unfold upd. destruct (Nat.eqb k i) eqn:K; [apply Nat.eqb_eq in K; subst k|]; apply HR.
@@ -211,15 +212,14 @@ Proof.
       rewrite Em. cbn [fst snd]. split; [|reflexivity].
       apply R_upd; [exact HR|]. destruct (s_del_spec (sst i) x) as [M1 N1].
       split; [exact W'|]. split; [apply N1; exact WA|]. intro y. rewrite M1, <- MA. apply M.
-  - (* Clear *) right. apply assign_ok; [exact HR|]. destruct (Clear_spec T (st i)) as [E _].
+  - (* Clear *) right. destruct (Clear_spec T (st i)) as [r [Er [E _]]]. rewrite Er. apply assign_ok; [exact HR|].
     split; [rewrite E; constructor|]. split; [constructor|]. intro x. rewrite E. tauto.
-  - (* Clone *) right. destruct (Clone_spec T (st j)) as [l [E1 E2]]. rewrite E1. apply assign_ok; [exact HR|].
-    subst l. exact (HR j).
+  - (* Clone *) right. rewrite Clone_spec. apply assign_ok; [exact HR|]. exact (HR j).
   - (* Intersect *)
     assert (HW : Forall wf (map st js)).
     { apply Forall_forall. intros s Hs. apply in_map_iff in Hs. destruct Hs as [j [E _]]. subst s. apply (HR j). }
-    pose proof (Intersect_spec T eqb eqb_spec (map st js) ord HW) as H.
-    destruct (Intersect T eqb (map st js) ord) as [r| | |]; try contradiction; [|left; reflexivity].
+    pose proof (Intersect_spec T eqb eqb_spec (map st js) next ord HW) as H.
+    destruct (Intersect T eqb (map st js) next ord) as [r| | | | |]; try contradiction; [|left; reflexivity].
     right. destruct H as [l [E [N M]]]. subst r. apply assign_ok; [exact HR|].
     assert (HN : Forall (@NoDup T) (map sst js)).
     { apply Forall_forall. intros A HA. apply in_map_iff in HA. destruct HA as [j [E _]]. subst A. apply (HR j). }
@@ -229,105 +229,108 @@ Proof.
       intros B HB. apply in_map_iff in HB. destruct HB as [j [E Hj]]. subst B. apply (HR j). apply H2. apply in_map. exact Hj.
     + intros [H1 H2]. split; [destruct js; [exfalso; apply H1; reflexivity | discriminate]|].
       intros s Hs. apply in_map_iff in Hs. destruct Hs as [j [E Hj]]. subst s. apply (HR j). apply H2. apply in_map. exact Hj.
-  - (* Range *) right. destruct (Range_spec T eqb eqb_spec items) as [l [E [N M]]]. rewrite E.
+  - (* Range *) right. destruct (Range_spec T eqb eqb_spec items next) as [l [E [N M]]]. rewrite E.
     apply assign_ok; [exact HR | apply rel_of_items; assumption].
-  - (* Keys *) right. destruct (Keys_spec T eqb eqb_spec keys) as [l [E [N M]]]. rewrite E.
+  - (* Range of the nil function *) right. rewrite Range_nil. cbn [assign fail_out fst snd out_ok]. split; [exact HR | exact I].
+  - (* Keys *) right. destruct (Keys_spec T eqb eqb_spec keys next) as [l [E [N M]]]. rewrite E.
     apply assign_ok; [exact HR | apply rel_of_items; assumption].
-  - (* Values *) right. destruct (Values_spec T eqb eqb_spec vals) as [l [E [N M]]]. rewrite E.
+  - (* Values *) right. destruct (Values_spec T eqb eqb_spec vals next) as [l [E [N M]]]. rewrite E.
     apply assign_ok; [exact HR | apply rel_of_items; assumption].
-  - (* Has *) right. cbn [fst snd]. split; [exact HR|]. cbn [out_ok].
-    apply (bool_eq _ _ (In x (sst i))); [|apply s_mem_In]. rewrite (Has_has T eqb eqb_spec). apply (HR i).
-  - (* HasAll *) right. cbn [fst snd]. split; [exact HR|]. cbn [out_ok].
+  - (* Has *) right. destruct (Has_spec T eqb eqb_spec (st i) x) as [b [E Hb]]. rewrite E. cbn [observe fst snd]. split; [exact HR|]. cbn [out_ok].
+    apply (bool_eq _ _ (In x (sst i))); [|apply s_mem_In]. rewrite Hb. apply (HR i).
+  - (* HasAll *) right. destruct (HasAll_spec T eqb eqb_spec (st i) ts) as [b [E Hb]]. rewrite E. cbn [observe fst snd]. split; [exact HR|]. cbn [out_ok].
     apply (bool_eq _ _ (forall x, In x ts -> In x (sst i))).
-    + rewrite (HasAll_spec T eqb eqb_spec). split; intros H x Hx; apply (HR i); apply H; exact Hx.
+    + rewrite Hb. split; intros H x Hx; apply (HR i); apply H; exact Hx.
     + rewrite forallb_forall. split; intros H x Hx; apply s_mem_In; apply H; exact Hx.
-  - (* HasAny *) right. cbn [fst snd]. split; [exact HR|]. cbn [out_ok].
+  - (* HasAny *) right. destruct (HasAny_spec T eqb eqb_spec (st i) ts) as [b [E Hb]]. rewrite E. cbn [observe fst snd]. split; [exact HR|]. cbn [out_ok].
     apply (bool_eq _ _ (exists x, In x ts /\ In x (sst i))).
-    + rewrite (HasAny_spec T eqb eqb_spec). split; intros [x [H1 H2]]; exists x; (split; [exact H1|]); apply (HR i); exact H2.
+    + rewrite Hb. split; intros [x [H1 H2]]; exists x; (split; [exact H1|]); apply (HR i); exact H2.
     + rewrite existsb_exists. split; intros [x [H1 H2]]; exists x; (split; [exact H1|]); apply s_mem_In; exact H2.
-  - (* Len *) right. cbn [fst snd]. split; [exact HR|]. cbn [out_ok].
-    rewrite Len_spec. unfold s_card. f_equal. apply rel_length. apply HR.
-  - (* IsEmpty *) right. cbn [fst snd]. split; [exact HR|]. cbn [out_ok].
-    unfold IsEmpty, isempty_ret, s_card, MapsetModel.m_len. rewrite (rel_length _ _ (HR i)). reflexivity.
+  - (* Len *) right. rewrite Len_spec. cbn [observe fst snd]. split; [exact HR|]. cbn [out_ok].
+    unfold s_card. f_equal. apply rel_length. apply HR.
+  - (* IsEmpty *) right. destruct (IsEmpty_spec T (st i)) as [b [E [Hb _]]]. rewrite E. cbn [observe fst snd]. split; [exact HR|]. cbn [out_ok].
+    subst b. unfold s_card, MapsetModel.m_len. rewrite (rel_length _ _ (HR i)). reflexivity.
   - (* Intersects *) destruct (HR i) as [W [WA MA]]. destruct (HR j) as [Wj [WAj MAj]].
     pose proof (Intersects_spec T eqb eqb_spec (st i) (st j) ord W Wj) as H.
-    destruct (Intersects T eqb (st i) (st j) ord) as [b| | |]; try contradiction; [|left; reflexivity].
+    destruct (Intersects T eqb (st i) (st j) ord) as [b| | | | |]; try contradiction; [|left; reflexivity].
     right. cbn [observe fst snd]. split; [exact HR|]. cbn [out_ok].
     apply (bool_eq _ _ (exists x, In x (sst i) /\ In x (sst j))); [|apply s_meets_spec].
     rewrite H. unfold MapsetProofs.has. split; intros [x [H1 H2]]; exists x; rewrite MA, MAj in *; tauto.
   - (* IsSubset *) destruct (HR i) as [W [WA MA]]. destruct (HR j) as [Wj [WAj MAj]].
     pose proof (IsSubset_spec T eqb eqb_spec (st i) (st j) ord W Wj) as H.
-    destruct (IsSubset T eqb (st i) (st j) ord) as [b| | |]; try contradiction; [|left; reflexivity].
+    destruct (IsSubset T eqb (st i) (st j) ord) as [b| | | | |]; try contradiction; [|left; reflexivity].
     right. cbn [observe fst snd]. split; [exact HR|]. cbn [out_ok].
     apply (bool_eq _ _ (forall x, In x (sst i) -> In x (sst j))); [|apply s_subset_spec].
     rewrite H. unfold MapsetProofs.has. split; intros H1 x Hx; apply MAj; apply H1; apply MA; exact Hx.
   - (* Equals *) destruct (HR i) as [W [WA MA]]. destruct (HR j) as [Wj [WAj MAj]].
     pose proof (Equals_spec T eqb eqb_spec (st i) (st j) ord W Wj) as H.
-    destruct (Equals T eqb (st i) (st j) ord) as [b| | |]; try contradiction; [|left; reflexivity].
+    destruct (Equals T eqb (st i) (st j) ord) as [b| | | | |]; try contradiction; [|left; reflexivity].
     right. cbn [observe fst snd]. split; [exact HR|]. cbn [out_ok].
     apply (bool_eq _ _ (forall x, In x (sst i) <-> In x (sst j))); [|apply s_equal_spec].
     rewrite H. unfold MapsetProofs.has. split; intros H1 x; [rewrite <- MA, <- MAj | rewrite MA, MAj]; apply H1.
   - (* Slice *) destruct (HR i) as [W _].
     pose proof (Slice_spec T eqb zero eqb_spec (st i) ord W) as H.
-    destruct (Slice T eqb zero (st i) ord) as [r| | |]; try contradiction; [|left; reflexivity].
+    destruct (Slice T eqb zero (st i) ord) as [r| | | | |]; try contradiction; [|left; reflexivity].
     right. cbn [observe fst snd]. split; [exact HR|]. cbn [out_ok].
     destruct H as [P _]. exists (sl_elems T r). split; [reflexivity|].
     apply (Permutation_trans P). apply rel_perm. apply HR.
   - (* Append *) destruct (HR i) as [W _].
     pose proof (Append_spec T eqb eqb_spec (st i) vs ord W) as H.
-    destruct (Append T eqb (st i) vs ord) as [r| | |]; try contradiction; [|left; reflexivity].
+    destruct (Append T eqb (st i) vs ord) as [r| | | | |]; try contradiction; [|left; reflexivity].
     right. cbn [observe fst snd]. split; [exact HR|]. cbn [out_ok].
     destruct H as [l [E [P _]]]. exists l. split; [exact E|].
     apply (Permutation_trans P). apply rel_perm. apply HR.
 Qed.
 
 (* a step that met an illegal order leaves every variable as it was *)
-Lemma step_badorder_state : forall st o, snd (step T eqb zero st o) = RBadOrder T -> fst (step T eqb zero st o) = st.
+Lemma step_badorder_state : forall st next o, snd (step T eqb zero st next o) = RBadOrder T -> fst (step T eqb zero st next o) = st.
 Proof.
-  intros st o. destruct o; cbn [step]; unfold assign, observe;
+  intros st next o. destruct o; cbn [step]; unfold assign, observe;
   repeat match goal with
-  | |- context [match ?r with Ok _ => _ | PanicNilMap => _ | PanicIndex => _ | BadOrder => _ end] => destruct r
+  | |- context [match ?r with Ok _ => _ | PanicNilMap => _ | PanicIndex => _ | PanicNilFunc => _ | BadOrder => _ | Unmodelled => _ end] => destruct r
   | |- context [let '(_, _) := ?p in _] => destruct p
   end; cbn [fst snd fail_out]; intro H; try discriminate H; reflexivity.
 Qed.
 
 (* THE HISTORY THEOREM *)
-Theorem history_refines : forall ops st sst, R st sst ->
-  ~ In (RBadOrder T) (snd (run T eqb zero st ops)) ->
-  R (fst (run T eqb zero st ops)) (fst (srun T eqb zero sst ops)) /\
-  Forall2 out_ok (snd (run T eqb zero st ops)) (snd (srun T eqb zero sst ops)).
+Theorem history_refines : forall ops st next sst, R st sst ->
+  ~ In (RBadOrder T) (snd (run T eqb zero st next ops)) ->
+  R (fst (run T eqb zero st next ops)) (fst (srun T eqb zero sst ops)) /\
+  Forall2 out_ok (snd (run T eqb zero st next ops)) (snd (srun T eqb zero sst ops)).
 Proof.
-  induction ops as [|o r IH]; intros st sst HR Hno; cbn [run srun].
+  induction ops as [|o r IH]; intros st next sst HR Hno; cbn [run srun].
   - cbn [fst snd]. split; [exact HR | constructor].
-  - pose proof (step_refines st sst o HR) as G. unfold good_step in G.
-    destruct (step T eqb zero st o) as [st1 x] eqn:E1. destruct (sstep T eqb zero sst o) as [sst1 sx] eqn:E2.
+  - pose proof (step_refines st next sst o HR) as G. unfold good_step in G.
+    destruct (step T eqb zero st next o) as [st1 x] eqn:E1. destruct (sstep T eqb zero sst o) as [sst1 sx] eqn:E2.
     cbn [run] in Hno. rewrite E1 in Hno.
-    destruct (run T eqb zero st1 r) as [st2 xs] eqn:E3. destruct (srun T eqb zero sst1 r) as [sst2 sxs] eqn:E4.
+    destruct (run T eqb zero st1 (bump next) r) as [st2 xs] eqn:E3. destruct (srun T eqb zero sst1 r) as [sst2 sxs] eqn:E4.
     cbn [fst snd] in *.
     destruct G as [G|[G1 G2]]; [exfalso; apply Hno; left; exact G|].
-    specialize (IH st1 sst1 G1). rewrite E3, E4 in IH. cbn [fst snd] in IH.
+    specialize (IH st1 (bump next) sst1 G1). rewrite E3, E4 in IH. cbn [fst snd] in IH.
     destruct IH as [I1 I2]; [intro H; apply Hno; right; exact H|].
     split; [exact I1 | constructor; assumption].
 Qed.
 
 (* starting from all variables nil *)
 Corollary history_from_nil : forall ops,
-  ~ In (RBadOrder T) (snd (run T eqb zero (store0 T) ops)) ->
-  R (fst (run T eqb zero (store0 T) ops)) (fst (srun T eqb zero (sstore0 T) ops)) /\
-  Forall2 out_ok (snd (run T eqb zero (store0 T) ops)) (snd (srun T eqb zero (sstore0 T) ops)).
+  ~ In (RBadOrder T) (snd (run T eqb zero (store0 T) next0 ops)) ->
+  R (fst (run T eqb zero (store0 T) next0 ops)) (fst (srun T eqb zero (sstore0 T) ops)) /\
+  Forall2 out_ok (snd (run T eqb zero (store0 T) next0 ops)) (snd (srun T eqb zero (sstore0 T) ops)).
 Proof. intros ops H. apply history_refines; [apply R0 | exact H]. Qed.
 
 (* what R says about the reads: membership, Len and IsEmpty are the reference set's *)
 Theorem R_reads : forall st sst, R st sst -> forall i,
-  (forall x, Has T eqb (st i) x = s_mem T eqb x (sst i)) /\
-  Len T (st i) = s_card T (sst i) /\
-  IsEmpty T (st i) = Z.eqb (s_card T (sst i)) 0 /\
+  (forall x, Has T eqb (st i) x = Ok (s_mem T eqb x (sst i))) /\
+  Len T (st i) = Ok (s_card T (sst i)) /\
+  IsEmpty T (st i) = Ok (Z.eqb (s_card T (sst i)) 0) /\
   NoDup (m_keys (st i)) /\ Permutation (m_keys (st i)) (sst i).
 Proof.
   intros st sst HR i. split; [|split; [|split; [|split]]].
-  - intro x. apply (bool_eq _ _ (In x (sst i))); [|apply s_mem_In]. rewrite (Has_has T eqb eqb_spec). apply (HR i).
-  - rewrite Len_spec. unfold s_card. f_equal. apply rel_length. apply HR.
-  - unfold IsEmpty, isempty_ret, s_card, MapsetModel.m_len. rewrite (rel_length _ _ (HR i)). reflexivity.
+  - intro x. destruct (Has_spec T eqb eqb_spec (st i) x) as [b [E Hb]]. rewrite E. f_equal.
+    apply (bool_eq _ _ (In x (sst i))); [|apply s_mem_In]. rewrite Hb. apply (HR i).
+  - rewrite Len_spec. unfold s_card. do 2 f_equal. apply rel_length. apply HR.
+  - destruct (IsEmpty_spec T (st i)) as [b [E [Hb _]]]. rewrite E. subst b.
+    unfold s_card, MapsetModel.m_len. rewrite (rel_length _ _ (HR i)). reflexivity.
   - apply (HR i).
   - apply rel_perm. apply HR.
 Qed.
@@ -384,39 +387,39 @@ Proof.
   induction n as [|n IH]; intros l x H; [exact H|]. destruct l as [|a l']; [exact H|]. right. apply IH. exact H.
 Qed.
 
-Theorem legal_order_exists : forall st sst o, R st sst ->
-  snd (step T eqb zero st (canonical_order st o)) <> RBadOrder T.
+Theorem legal_order_exists : forall st next sst o, R st sst ->
+  snd (step T eqb zero st next (canonical_order st o)) <> RBadOrder T.
 Proof.
-  intros st sst o HR.
+  intros st next sst o HR.
   assert (V : forall k, valid_order T eqb (m_keys (st k)) (st k) = true).
   { intro k. apply (valid_order_keys T eqb eqb_spec). apply (HR k). }
-  destruct o as [i items|i n|i|i items|i j ord|i items|i j ord|i ord|i|i j|i js ord|i items|i keys|i vals
+  destruct o as [i items|i n|i|i items|i j ord|i items|i j ord|i ord|i|i j|i js ord|i [items|]|i keys|i vals
                 |i x|i ts|i ts|i|i|i j ord|i j ord|i j ord|i ord|i vs ord]; cbn [canonical_order step];
     unfold assign, observe.
-  - destruct (New_spec T eqb eqb_spec items) as [l [E _]]. rewrite E. discriminate.
+  - destruct (New_spec T eqb eqb_spec next items) as [l [E _]]. rewrite E. discriminate.
+  - rewrite NewSize_spec. discriminate.
   - discriminate.
-  - discriminate.
-  - destruct (HR i) as [W _]. destruct (Add_spec T eqb eqb_spec (st i) items W) as [l [E _]]. rewrite E. discriminate.
+  - destruct (HR i) as [W _]. destruct (Add_spec T eqb eqb_spec (st i) next items W) as [l [E _]]. rewrite E. discriminate.
   - destruct (HR i) as [W _]. destruct (HR j) as [Wj _].
-    pose proof (AddAll_spec T eqb eqb_spec (st i) (st j) (m_keys (st j)) W Wj) as H.
-    destruct (AddAll T eqb (st i) (st j) (m_keys (st j))); try contradiction; [discriminate|].
+    pose proof (AddAll_spec T eqb eqb_spec (st i) (st j) next (m_keys (st j)) W Wj) as H.
+    destruct (AddAll T eqb (st i) (st j) next (m_keys (st j))); try contradiction; [discriminate|].
     destruct H as [_ H]. rewrite V in H. discriminate.
-  - discriminate.
-  - destruct (HR j) as [Wj _].
-    pose proof (RemoveAll_spec T eqb eqb_spec (st i) (st j) (m_keys (st j)) Wj) as H.
+  - destruct (Remove_spec T eqb eqb_spec (st i) items) as [r [E _]]. rewrite E. discriminate.
+  - destruct (HR i) as [W _]. destruct (HR j) as [Wj _].
+    pose proof (RemoveAll_spec T eqb eqb_spec (st i) (st j) (m_keys (st j)) W Wj) as H.
     destruct (RemoveAll T eqb (st i) (st j) (m_keys (st j))); try contradiction; [discriminate|].
     rewrite V in H. discriminate.
   - destruct (HR i) as [W _].
     pose proof (Pop_spec T eqb zero eqb_spec (st i) (m_keys (st i)) W) as H.
-    destruct (Pop T eqb zero (st i) (m_keys (st i))) as [[s' x]| | |]; try contradiction; [discriminate|].
+    destruct (Pop T eqb zero (st i) (m_keys (st i))) as [[s' x]| | | | |]; try contradiction; [discriminate|].
     rewrite V in H. discriminate.
-  - discriminate.
-  - discriminate.
+  - destruct (Clear_spec T (st i)) as [r [E _]]. rewrite E. discriminate.
+  - rewrite Clone_spec. discriminate.
   - assert (HW : Forall wf (map st js)).
     { apply Forall_forall. intros s Hs. apply in_map_iff in Hs. destruct Hs as [j [E _]]. subst s. apply (HR j). }
     set (ord0 := match intersect_operand T (map st js) with Ok m => m_keys m | _ => [] end).
-    pose proof (Intersect_spec T eqb eqb_spec (map st js) ord0 HW) as H.
-    destruct (Intersect T eqb (map st js) ord0); try contradiction; [discriminate|].
+    pose proof (Intersect_spec T eqb eqb_spec (map st js) next ord0 HW) as H.
+    destruct (Intersect T eqb (map st js) next ord0); try contradiction; [discriminate|].
     destruct H as [min [E H]]. subst ord0. rewrite E in H.
     assert (Wm : wf min).
     { unfold intersect_operand in E. destruct (nth_error (map st js) (Z.to_nat intersect_first_idx)) as [m0|] eqn:E0; [|discriminate].
@@ -428,14 +431,15 @@ Proof.
       - apply nth_error_In with (n := Z.to_nat intersect_first_idx). rewrite <- H1. exact E0.
       - apply (skipn_In _ _ _ _ H1). }
     rewrite (valid_order_keys T eqb eqb_spec _ Wm) in H. discriminate.
-  - destruct (Range_spec T eqb eqb_spec items) as [l [E _]]. rewrite E. discriminate.
-  - destruct (Keys_spec T eqb eqb_spec keys) as [l [E _]]. rewrite E. discriminate.
-  - destruct (Values_spec T eqb eqb_spec vals) as [l [E _]]. rewrite E. discriminate.
-  - discriminate.
-  - discriminate.
-  - discriminate.
-  - discriminate.
-  - discriminate.
+  - destruct (Range_spec T eqb eqb_spec items next) as [l [E _]]. rewrite E. discriminate.
+  - rewrite Range_nil. discriminate.
+  - destruct (Keys_spec T eqb eqb_spec keys next) as [l [E _]]. rewrite E. discriminate.
+  - destruct (Values_spec T eqb eqb_spec vals next) as [l [E _]]. rewrite E. discriminate.
+  - destruct (Has_spec T eqb eqb_spec (st i) x) as [b [E _]]. rewrite E. discriminate.
+  - destruct (HasAll_spec T eqb eqb_spec (st i) ts) as [b [E _]]. rewrite E. discriminate.
+  - destruct (HasAny_spec T eqb eqb_spec (st i) ts) as [b [E _]]. rewrite E. discriminate.
+  - rewrite Len_spec. discriminate.
+  - destruct (IsEmpty_spec T (st i)) as [b [E _]]. rewrite E. discriminate.
   - destruct (HR i) as [W _]. destruct (HR j) as [Wj _].
     set (ord0 := m_keys (fst (intersects_operands T (st i) (st j)))).
     pose proof (Intersects_spec T eqb eqb_spec (st i) (st j) ord0 W Wj) as H.
@@ -463,37 +467,37 @@ Qed.
 (* what New, Clone, Intersect, Keys, Values, Range (and NewSize, Add, AddAll) store is never nil *)
 Definition constructs (o : op T) : bool :=
   match o with
-  | ONew _ _ _ | ONewSize _ _ _ | OClone _ _ _ | OIntersect _ _ _ _ | ORange _ _ _ | OKeys _ _ _ | OValues _ _ _
+  | ONew _ _ _ | ONewSize _ _ _ | OClone _ _ _ | OIntersect _ _ _ _ | ORange _ _ (Some _) | OKeys _ _ _ | OValues _ _ _
   | OAdd _ _ _ | OAddAll _ _ _ _ => true
-  | _ => false
+  | _ => false       (* in particular Range of the nil function, which panics *)
   end.
 
-Theorem constructors_nonnil : forall st sst o, R st sst -> constructs o = true ->
-  match snd (step T eqb zero st o) with
+Theorem constructors_nonnil : forall st next sst o, R st sst -> constructs o = true ->
+  match snd (step T eqb zero st next o) with
   | RSet _ m => m <> None
   | RBadOrder _ => True
   | _ => False
   end.
 Proof.
-  intros st sst o HR Hc.
-  destruct o as [i items|i n|i|i items|i j ord|i items|i j ord|i ord|i|i j|i js ord|i items|i keys|i vals
+  intros st next sst o HR Hc.
+  destruct o as [i items|i n|i|i items|i j ord|i items|i j ord|i ord|i|i j|i js ord|i [items|]|i keys|i vals
                 |i x|i ts|i ts|i|i|i j ord|i j ord|i j ord|i ord|i vs ord]; try discriminate Hc; cbn [step]; unfold assign.
-  - destruct (New_spec T eqb eqb_spec items) as [l [E _]]. rewrite E. cbn [snd]. discriminate.
-  - cbn [snd]. unfold NewSize, m_make. discriminate.
-  - destruct (HR i) as [W _]. destruct (Add_spec T eqb eqb_spec (st i) items W) as [l [E _]]. rewrite E. cbn [snd]. discriminate.
+  - destruct (New_spec T eqb eqb_spec next items) as [l [E _]]. rewrite E. cbn [snd]. discriminate.
+  - rewrite NewSize_spec. cbn [snd]. discriminate.
+  - destruct (HR i) as [W _]. destruct (Add_spec T eqb eqb_spec (st i) next items W) as [l [E _]]. rewrite E. cbn [snd]. discriminate.
   - destruct (HR i) as [W _]. destruct (HR j) as [Wj _].
-    pose proof (AddAll_spec T eqb eqb_spec (st i) (st j) ord W Wj) as H.
-    destruct (AddAll T eqb (st i) (st j) ord); try contradiction; cbn [snd fail_out]; [|exact I].
+    pose proof (AddAll_spec T eqb eqb_spec (st i) (st j) next ord W Wj) as H.
+    destruct (AddAll T eqb (st i) (st j) next ord); try contradiction; cbn [snd fail_out]; [|exact I].
     destruct H as [l [E _]]. subst. discriminate.
-  - destruct (Clone_spec T (st j)) as [l [E _]]. rewrite E. cbn [snd]. discriminate.
+  - rewrite Clone_spec. cbn [snd]. discriminate.
   - assert (HW : Forall wf (map st js)).
     { apply Forall_forall. intros s Hs. apply in_map_iff in Hs. destruct Hs as [j [E _]]. subst s. apply (HR j). }
-    pose proof (Intersect_spec T eqb eqb_spec (map st js) ord HW) as H.
-    destruct (Intersect T eqb (map st js) ord); try contradiction; cbn [snd fail_out]; [|exact I].
+    pose proof (Intersect_spec T eqb eqb_spec (map st js) next ord HW) as H.
+    destruct (Intersect T eqb (map st js) next ord); try contradiction; cbn [snd fail_out]; [|exact I].
     destruct H as [l [E _]]. subst. discriminate.
-  - destruct (Range_spec T eqb eqb_spec items) as [l [E _]]. rewrite E. cbn [snd]. discriminate.
-  - destruct (Keys_spec T eqb eqb_spec keys) as [l [E _]]. rewrite E. cbn [snd]. discriminate.
-  - destruct (Values_spec T eqb eqb_spec vals) as [l [E _]]. rewrite E. cbn [snd]. discriminate.
+  - destruct (Range_spec T eqb eqb_spec items next) as [l [E _]]. rewrite E. cbn [snd]. discriminate.
+  - destruct (Keys_spec T eqb eqb_spec keys next) as [l [E _]]. rewrite E. cbn [snd]. discriminate.
+  - destruct (Values_spec T eqb eqb_spec vals next) as [l [E _]]. rewrite E. cbn [snd]. discriminate.
 Qed.
 
 (* the variable an operation may assign: every other variable keeps its value *)
@@ -511,15 +515,15 @@ Definition observer (o : op T) : bool :=
   | _ => false
   end.
 
-Theorem step_frame : forall st o k,
-  (k <> target o \/ observer o = true) -> fst (step T eqb zero st o) k = st k.
+Theorem step_frame : forall st next o k,
+  (k <> target o \/ observer o = true) -> fst (step T eqb zero st next o) k = st k.
 Proof.
-  intros st o k H.
+  intros st next o k H.
   assert (U : forall i m, k <> i -> upd T st i m k = st k).
   { intros i m Hk. unfold upd. destruct (Nat.eqb k i) eqn:E; [apply Nat.eqb_eq in E; contradiction | reflexivity]. }
   destruct o; cbn [step target observer] in *; unfold assign, observe;
   repeat match goal with
-  | |- context [match ?r with Ok _ => _ | PanicNilMap => _ | PanicIndex => _ | BadOrder => _ end] => destruct r
+  | |- context [match ?r with Ok _ => _ | PanicNilMap => _ | PanicIndex => _ | PanicNilFunc => _ | BadOrder => _ | Unmodelled => _ end] => destruct r
   | |- context [let '(_, _) := ?p in _] => destruct p
   end; cbn [fst]; try reflexivity;
   (destruct H as [H|H]; [apply U; exact H | discriminate H]).
